@@ -11,6 +11,7 @@ import (
 type Options struct {
 	MaxServices    int
 	Interfaces     bool
+	IfaceBias      bool // interface over most Node types, interface fields mostly object references
 	Unions         bool
 	ValueTypes     bool
 	Args           bool
@@ -341,10 +342,15 @@ func Generate(t *rapid.T, opt Options) *Model {
 		}
 	}
 	// interfaces / unions
-	if opt.Interfaces && nNode >= 1 && g.chance(45, "iface") {
+	ifacePct, memberPct, ifaceCompositePct := 45, 60, 40
+	if opt.IfaceBias {
+		// worlds made for selections on interfaces: an interface over (nearly) all Node types whose fields are mostly object references
+		ifacePct, memberPct, ifaceCompositePct = 100, 90, 70
+	}
+	if opt.Interfaces && nNode >= 1 && g.chance(ifacePct, "iface") {
 		x := &Iface{Name: "Being", OverNode: true}
 		for _, o := range m.Objects {
-			if o.IsNode && (len(x.Members) == 0 || g.chance(60, "imem")) {
+			if o.IsNode && (len(x.Members) == 0 || g.chance(memberPct, "imem")) {
 				x.Members = append(x.Members, o.Name)
 				o.Implements = append(o.Implements, x.Name)
 			}
@@ -397,7 +403,7 @@ func Generate(t *rapid.T, opt Options) *Model {
 			if x.OverNode {
 				owner := g.pick(k, "ifowner")
 				// interface fields are often object references (cross-service selections below an interface matter)
-				x.Fields = append(x.Fields, g.newField([]int{owner}, owner, used, 40))
+				x.Fields = append(x.Fields, g.newField([]int{owner}, owner, used, ifaceCompositePct))
 			} else {
 				f := g.newField(x.Home, -1, used, 0)
 				x.Fields = append(x.Fields, f)
